@@ -60,7 +60,21 @@ def respell(text, rnd, fortran=False, message=True, numbers=True):
             continue
         toks = line.split(' ')
         new = []
+        inpar = False          # inside the parentheses of a TRCL / FILL transformation on a cell card
         for i, t in enumerate(toks):
+            if block == 0 and numbers and i > 0:
+                low = t.lower()
+                opens = ('trcl=(' in low) or (t.startswith('(') and i >= 1 and 'fill=' in toks[i - 1].lower())
+                if opens or inpar:
+                    k0 = t.find('(') + 1 if opens else 0
+                    head, body_ = t[:k0], t[k0:]
+                    tail = ''
+                    if body_.endswith(')'):
+                        body_, tail = body_[:-1], ')'
+                    if body_ and not (opens and tail):        # "(7)" is the number of a TR card: stays an integer
+                        body_ = respell_number(body_, rnd, fortran)
+                    t = head + body_ + tail
+                    inpar = not tail
             if numbers and i > 0:
                 # never respell ids (first token), cell expressions or keyword values that must stay integers
                 if block >= 1 and not re.search(r'[a-zA-Z=:()#]', t) and ('.' in t or block >= 1):
@@ -102,7 +116,7 @@ def respell(text, rnd, fortran=False, message=True, numbers=True):
             else:
                 sep = ' ' * rnd.randint(1, 3) if rnd.random() < 0.85 else '\t'
                 cur += sep + t
-        lines_out.append(cur + ('' if rnd.random() < 0.8 else '   $ trailing comment'))
+        lines_out.append(cur + ('' if rnd.random() < 0.8 else rnd.choice(['   $ trailing comment', '   $ steel & concrete', '  $ comment that ends with an ampersand &'])))
         if rnd.random() < 0.15:
             out.append(rnd.choice(['c', 'c comment between cards', 'C  ANOTHER ONE']))
         out += lines_out
